@@ -134,6 +134,25 @@ def solve_cfg(spec, seed, kw):
         obj = adapter._get(h.solver, "_objective")
         if obj is not None and len(spec["objectives"]) == 1:
             val = m.eval(adapter._get(obj, "_target"), model_completion=True).as_long()
+    h.repeat = None
+    walk = kw.get("optimizer") == "optimize" and kw.get("optimize_priority") in ("pareto", "box", "lex") and len(spec["objectives"]) > 1
+    if sol and definite and not early and not walk:
+        # the same call once more on the same solver object: an option must not make the answer depend on the history
+        with env.collect_prints() as printed:
+            sol2 = h.solver.solve()
+            early2 = any(a and isinstance(a[0], str) and ("Max time" in a[0] or ("Reason:" in a[0] and "Unsatisfiable" not in a[0])) for a in printed)
+        if not early2:
+            if not sol2:
+                try:
+                    if str(adapter._get(h.solver, "_solver").check()) == "unsat":
+                        h.repeat = {"first": "solution", "second": "no solution (definite unsat)"}
+                except Exception:
+                    pass
+            elif val is not None and kw.get("optimizer") != "optimize":
+                m2 = adapter._get(h.solver, "_model")
+                val2 = m2.eval(adapter._get(adapter._get(h.solver, "_objective"), "_target"), model_completion=True).as_long()
+                if val2 != val:
+                    h.repeat = {"first_optimum": val, "second_optimum": val2}
     h.handoff = None
     if kw.get("optimizer") == "optimize" and spec["objectives"]:
         # what was handed to z3.Optimize: exactly the declared objectives with their direction (z3 stores a
@@ -178,6 +197,10 @@ def prop(ctx, case):
             if getattr(h, "handoff", None):
                 ctx.violation({"check": "C15.config", "rule": "objectives_handed_to_z3_differ_from_declared", "spec": spec, "seed": seed, "cfg": kw, "probe": {"kind": "config"},
                                "observed": h.handoff, "signature": {"rule": "objectives_handoff", "classes": engine.classes_of(spec), "cfg_keys": sorted(k for k in kw if k != "_rseed")}})
+                return
+            if getattr(h, "repeat", None):
+                ctx.violation({"check": "C15.config", "rule": "repeated_solve_differs_under_configuration", "spec": spec, "seed": seed, "cfg": kw, "probe": {"kind": "config"},
+                               "observed": h.repeat, "signature": {"rule": "repeated_solve_differs", "classes": engine.classes_of(spec), "cfg_keys": sorted(k for k in kw if k != "_rseed")}})
                 return
             if sol:
                 bad = ref.judge(spec, sched).bad(VALID_FAMILIES)
